@@ -420,6 +420,26 @@ class UGen:
             return self._derive(t)
         return self._term(t)
 
+    def price_like(self):
+        """A 'money per quantity' shaped universe: a base type M without reference unit (several bare units),
+        a linear base type X with scaled units, a derived type P = M/X | M*X | M/X**2 with units derived
+        for several (m, x) combinations - equal-scale sibling units that are not convertible."""
+        draw = self.draw
+        M = self._emit({"d": "type", "kind": "base", "ref": False, "quantum": None})
+        ms = [self._emit({"d": "unit", "t": M.idx, "how": "bare"}).uid for _ in range(draw(st.integers(2, 3)))]
+        X = self._emit({"d": "type", "kind": "base", "ref": True, "quantum": None})
+        xs = [X.ref_uid]
+        for f in draw(st.lists(st.sampled_from([1000, 8, 60]), min_size=1, max_size=2, unique=True)):
+            xs.append(self._emit({"d": "unit", "t": X.idx, "how": "scaled", "of": X.ref_uid,
+                                  "f": ["int", str(f)], "side": "l"}).uid)
+        shape = draw(st.sampled_from([[[M.idx, 1], [X.idx, -1]], [[M.idx, 1], [X.idx, 1]], [[M.idx, 1], [X.idx, -2]]]))
+        P = self._emit({"d": "type", "kind": "derived", "def": shape, "how": draw(st.sampled_from(["ops", "term"])),
+                        "refsym": False, "quantum": None})
+        combos = [(a, b) for a in ms for b in xs]
+        for a, b in draw(st.lists(st.sampled_from(combos), min_size=2, max_size=5, unique=True)):
+            self._emit({"d": "unit", "t": P.idx, "how": "derive", "args": [a, b], "sym": True})
+        return M, X, P
+
     def grow(self, n_base, n_steps):
         for _ in range(n_base):
             self.base_type()
@@ -631,13 +651,37 @@ def _good_type_pairs(m: UModel):
     return out
 
 
+def _sibling_op(draw, m: UModel, o):
+    """The same operation with one operand replaced by another unit of the same type, preferably one that
+    compares equal to it (same scale) - equal-but-distinct units must not share cached results."""
+    if draw(st.integers(0, 2)) != 0:
+        return None
+    key = "u" if "v" not in o or draw(st.booleans()) else "v"
+    mu = m.units[o[key]]
+    sibs = [x for x in m.types[mu.t].units if x != mu.uid]
+    if not sibs:
+        return None
+    same = [x for x in sibs if m.units[x].factor == mu.factor]
+    pick = draw(st.sampled_from(same)) if same and draw(st.integers(0, 3)) else draw(st.sampled_from(sibs))
+    o2 = dict(o)
+    o2[key] = pick
+    return o2
+
+
 @st.composite
 def gen_ops_case(draw, max_base=3, max_steps=12):
     g = UGen(draw, allow_noref=True, allow_quantum=True)
-    g.grow(draw(st.integers(1, max_base)), draw(st.integers(3, max_steps)))
+    if draw(st.integers(0, 4)) == 0:
+        g.price_like()
+        for _ in range(draw(st.integers(0, 4))):
+            g.unit()
+    else:
+        g.grow(draw(st.integers(1, max_base)), draw(st.integers(3, max_steps)))
     m = g.m
     have = [t for t in m.types if t.units]
-    good = _good_type_pairs(m)
+    good = _good_type_pairs(m) + [(t1.idx, op, t2.idx) for t1 in m.types for t2 in m.types for op in "*/"
+                                  if t1.units and t2.units and not t1.has_ref and t1.kind == "derived"
+                                  and t2.has_ref]
     kinds = ("int", "dec", "decp", "frac")
     ops = []
     for _ in range(draw(st.integers(3, 8))):
@@ -659,6 +703,9 @@ def gen_ops_case(draw, max_base=3, max_steps=12):
         ops.append({"op": op, "shape": draw(st.sampled_from(["uu", "qu", "uq", "qq", "qq"])), "u": u, "v": v,
                     "a": draw(gen.encode(gen.fractions(allow_zero=False), kinds)),
                     "b": draw(gen.encode(gen.fractions(allow_zero=False), kinds))})
+        sib = _sibling_op(draw, m, ops[-1])
+        if sib is not None:
+            ops.append(sib)
     return {"k": "u_ops", "uni": g.spec(), "ops": ops}
 
 
@@ -818,6 +865,13 @@ def decl_deps(decls, m_before_types, m_before_units):
             for r in refs:
                 if r in unum:
                     s.add(unum[r])
+            if d["how"] == "term" and d["t"] in tnum and not decls[tnum[d["t"]]]["_has_ref"]:
+                # in a type without reference unit a term only defines a unit if the plain product of
+                # base units has been declared before: keep all earlier units of that type in front
+                for k2 in range(k):
+                    d2 = decls[k2]
+                    if d2["d"] == "unit" and d2["t"] == d["t"]:
+                        s.add(k2)
         deps.append(s)
     return deps, tnum, unum
 
@@ -841,6 +895,10 @@ def gen_program(draw, catalogue=None):
                 g.derived_type()
             else:
                 g.unit()
+    elif draw(st.integers(0, 3)) == 0:
+        g.price_like()
+        for _ in range(draw(st.integers(0, 3))):
+            g.unit()
     else:
         g.grow(draw(st.integers(1, 3)), draw(st.integers(3, 10)))
     m = g.m
@@ -862,6 +920,11 @@ def gen_program(draw, catalogue=None):
                     for op, sg in (("*", 1), ("/", -1)):
                         if bm_mul(t1.dims, t2.dims, sg) == t.dims:
                             good.append((t1.idx, op, t2.idx))
+    for t1 in have:
+        if t1.kind == "derived" and not t1.has_ref:
+            for t2 in have:
+                if t2.has_ref:
+                    good += [(t1.idx, "*", t2.idx), (t1.idx, "/", t2.idx), (t2.idx, "*", t1.idx)]
     kinds = ("int", "dec", "frac")
     ops = []
     for _ in range(draw(st.integers(2, 6))):
@@ -886,6 +949,9 @@ def gen_program(draw, catalogue=None):
             o.update(shape=draw(st.sampled_from(["uu", "qu", "uq", "qq", "qq"])), v=v,
                      b=draw(gen.encode(gen.fractions(allow_zero=False), kinds)))
         ops.append(o)
+        sib = _sibling_op(draw, m, o)
+        if sib is not None:
+            ops.append(sib)
     # what each op needs before it can be written down: its operand units
     def op_needs(o):
         need = set()
